@@ -54,7 +54,7 @@ def count(lo, hi):
 def nontrivial(op, result):
     if op.startswith("cmp ") or op.startswith("regs "):
         return result != "bad-op"
-    if op.startswith("out "):
+    if op.startswith("out ") or op.startswith("interp"):
         return result != "bad-op"
     return " n=0 " not in result and not result.endswith("cells=-") and result != "bad-op"
 
@@ -78,6 +78,9 @@ def weight(op):
     if k == "clamps":
         d, m = P(t[1]), int(t[2])
         return count([-m] * len(d), [x + m + 1 for x in d])
+    if k == "interps":
+        d = P(t[1])
+        return count([0] * len(d), [x - 1 for x in d]) * 4 ** len(d)
     return 1
 
 
@@ -102,6 +105,10 @@ def refine(op):
     if k == "clamps":
         d, m = P(t[1]), int(t[2])
         return [f"clamp {t[1]} {L(p)}" for p in tuples([-m] * len(d), [x + m + 1 for x in d])]
+    if k == "interps":
+        d = P(t[1])
+        return [f"interp {t[1]} {t[2]} {L(fl)} {L(q)}" for fl in tuples([0] * len(d), [x - 1 for x in d])
+                for q in tuples([0] * len(d), [4] * len(d))]
     return None
 
 
@@ -288,6 +295,15 @@ def batches(rng, tier):
         else:
             ops.append(f"apply {L(a)} {r.below(4)} {L(other())} {r.below(4)} {L(other())} {r.below(4)}")
     yield Batch("apply-sampled", ops, note="2 and 3 grids, sizes equal / differing in one extent / permuted")
+
+    # ---- interpolate: every size with extents 2..4 (thorough N<=2: 2..6), every integral part with all neighbours in range, quarters
+    ops = []
+    for n in (1, 2, 3):
+        exts = [2, 3, 4, 5, 6] if (thorough and n < 3) else [2, 3, 4]
+        ops += [f"interps {L(d)} {i % 4}" for i, d in enumerate(dims(n, exts))]
+    yield Batch("interpolate-all", ops, exhaustive=True,
+                note="interpolate with an argument-recording interpolator at every position fl + q/4, 0 <= fl_i <= extent-2, q in {0,1,2,3}^N, "
+                     "every size with extents 2..4 (thorough: 2..6 for N<=2)")
 
     # ---- static_row constructor (two-dimensional only): every row length and row count 1..4
     ops = [f"rows {w} {h} {k}" for w in range(1, 5) for h in range(1, 5) for k in (0, 3)]
